@@ -101,7 +101,7 @@ func partA(run *hx.Run, r *hx.Rand) {
 		fails := make([]bool, nj)
 		anyFail := false
 		for j := range fails {
-			fails[j] = cr.Chance(1, 5)
+			fails[j] = cr.Chance(2, 5)
 			anyFail = anyFail || fails[j]
 		}
 		cancel := cr.Bool()
@@ -111,11 +111,18 @@ func partA(run *hx.Run, r *hx.Rand) {
 		installHooks(cr.Uint64())
 		slots := make([]int, nj)
 		ran := make([]bool, nj)
+		var completedMu sync.Mutex
+		var completed []int
 		jobs := make([]func(context.Context) error, nj)
 		for j := range jobs {
 			j := j
 			jobs[j] = func(ctx context.Context) error {
 				ran[j] = true // each job owns its slot
+				defer func() {
+					completedMu.Lock()
+					completed = append(completed, j)
+					completedMu.Unlock()
+				}()
 				if fails[j] {
 					return fmt.Errorf("job %d failed", j)
 				}
@@ -145,6 +152,61 @@ func partA(run *hx.Run, r *hx.Rand) {
 		run.Count("A:verdict=" + b01(err != nil))
 		in := map[string]any{"fails": fails, "cancel_on_failure": cancel, "parallelism": par}
 		rp := fmt.Sprintf("build/c02 --out /tmp/c02-replay --seed %d --tier %s", run.Seed, run.Tier)
+		// which errors, in which order: the combined error's items against the model, fed with the
+		// schedule this very run had (completion order; where dispatch stopped)
+		var items []string
+		var flat func(e error)
+		flat = func(e error) {
+			if e == nil {
+				return
+			}
+			if u, ok := e.(interface{ Unwrap() []error }); ok {
+				for _, x := range u.Unwrap() {
+					flat(x)
+				}
+				return
+			}
+			var k int
+			if _, serr := fmt.Sscanf(e.Error(), "job %d failed", &k); serr == nil {
+				items = append(items, "j"+strconv.Itoa(k))
+			} else if errors.Is(e, context.Canceled) {
+				items = append(items, "ctx")
+			} else {
+				items = append(items, "other")
+			}
+		}
+		flat(err)
+		itemS := "-"
+		if len(items) > 0 {
+			itemS = strings.Join(items, ",")
+		}
+		compS, stopS := "-", "-"
+		if len(completed) > 0 {
+			cs := make([]string, len(completed))
+			for k, c := range completed {
+				cs[k] = strconv.Itoa(c)
+			}
+			compS = strings.Join(cs, ",")
+		}
+		for j := range ran {
+			if !ran[j] {
+				stopS = strconv.Itoa(j)
+				break
+			}
+		}
+		run.Case("perr\t"+fb+"\t"+compS+"\t"+stopS, itemS, len(items) > 1)
+		run.Count(fmt.Sprintf("A:error-items=%d", len(items)))
+		if !cancel {
+			var want []string
+			for j := range fails {
+				if fails[j] {
+					want = append(want, "j"+strconv.Itoa(j))
+				}
+			}
+			if strings.Join(want, ",") != strings.Join(items, ",") {
+				run.Fail(hx.OracleFailure{Class: "parallelize-error-order", What: fmt.Sprintf("Parallelize (no cancel-on-failure) of jobs failing=%v returned the errors %v (completion order %v): not the failing jobs in job order", fails, items, completed), Input: in, Replay: rp})
+			}
+		}
 		if (err != nil) != anyFail {
 			run.Fail(hx.OracleFailure{Class: "parallelize-verdict", What: fmt.Sprintf("Parallelize returned err=%v for jobs failing=%v", err, fails), Input: in, Replay: rp})
 		}
@@ -660,6 +722,15 @@ func partC(run *hx.Run, r *hx.Rand, tmpRoot string) {
 			}
 		}
 		must0(os.WriteFile(filepath.Join(dir, "buf.yaml"), []byte(yaml.String()), 0o644))
+		if i%3 == 1 {
+			// several unparsable files: every command fails, each with several diagnostics whose
+			// order must not depend on which file was parsed first
+			for k := 0; k < 5; k++ {
+				p := fmt.Sprintf("mod0/zz_broken_%d.proto", k)
+				must0(os.WriteFile(filepath.Join(dir, p), []byte(fmt.Sprintf("syntax = \"proto3\";\npackage broken%d;\nmessage B%d { int32 a = ; }\n", k, k)), 0o644))
+			}
+			run.Count("C:workspace-with-unparsable-files")
+		}
 		sort.Strings(allProto)
 		cmds := [][]string{
 			{"build", "-o", "-"},
@@ -675,7 +746,7 @@ func partC(run *hx.Run, r *hx.Rand, tmpRoot string) {
 		}
 		for ci, args := range cmds {
 			var ref []byte
-			for vi, gmp := range []string{"", "1", "2", "16"} {
+			for vi, gmp := range []string{"", "1", "2", "16", "", "16", "4", ""} {
 				a := append([]string{}, args...)
 				if ci == 5 && vi%2 == 1 {
 					// swap the two --path arguments
